@@ -9,6 +9,7 @@ import Adsg.Model.Metrics
 import Adsg.Model.Steps
 import Adsg.Model.Constraints
 import Adsg.Model.Conn
+import Adsg.Model.Enc
 open Lean Adsg
 
 namespace Drv
@@ -241,6 +242,31 @@ def opBoundedComp (j : Json) : R Json := do
   let caps ← listOf nat (← field j "caps")
   return jList (jList jNat) (boundedComp n caps)
 
+/-! ### encoder manager layer -/
+
+def table (j : Json) : R Table := listOf (pairOf (listOf int) (listOf (listOf nat))) j
+
+/-- tables: per pattern a table or null; queries: {p, x, imp} with `imp` the row the real imputer
+    picked (null when the implementation had a direct hit; then any in-range value works). -/
+def opEager (j : Json) : R Json := do
+  let tabs ← listOf (optOf table) (← field j "tables")
+  let nOpts ← listOf nat (← field j "n_opts")
+  let wf := tabs.map (fun t => match t with | some t => Json.bool (t.WF nOpts) | none => Json.null)
+  let two := twoValuesEach (tabs.filterMap id) nOpts
+  let qs ← listOf (fun q => do
+      let p ← nat (← field q "p")
+      let x ← listOf int (← field q "x")
+      let imp ← fieldD q "imp" (optOf nat) none
+      let t := (tabs[p]?).join
+      let (v, act, m) := managerGet t nOpts (fun _ => imp.getD 0) x
+      let (_, row) := eagerGet t nOpts (fun _ => imp.getD 0) x
+      return Json.mkObj [("v", jList jInt v), ("act", jList Json.bool act), ("m", jOpt jMat m),
+        ("row", jOpt jNat row), ("hit", Json.bool (match t with | some t => (t.hit (clampVec nOpts x)).isSome | none => false))])
+    (← fieldD j "queries" pure (Json.arr #[]))
+  let alldv := tabs.map (fun t => match t with | some t => jList (jList jInt) (allDesignVectors t nOpts) | none => Json.null)
+  return Json.mkObj [("wf", Json.arr wf.toArray), ("two_values", Json.bool two), ("all_dv", Json.arr alldv.toArray),
+    ("results", Json.arr qs.toArray)]
+
 def dispatch (op : String) (j : Json) : R Json :=
   match op with
   | "ping" => return Json.str "pong"
@@ -252,6 +278,7 @@ def dispatch (op : String) (j : Json) : R Json :=
   | "valid_idx" => opValidIdx j
   | "matrices" => opMatrices j
   | "bounded_comp" => opBoundedComp j
+  | "eager" => opEager j
   | "correct_value" => opCorrect j
   | "decode_dv" => opDecodeDV j
   | "metrics" => opMetrics j
